@@ -1,0 +1,110 @@
+package bebop
+
+import "fmt"
+
+// generatedMethodNames are the methods every generated record has. Go does not
+// allow a field and a method of one type to share a name.
+var generatedMethodNames = map[string]struct{}{
+	"MarshalBebop":       {},
+	"MarshalBebopTo":     {},
+	"UnmarshalBebop":     {},
+	"MustUnmarshalBebop": {},
+	"EncodeBebop":        {},
+	"DecodeBebop":        {},
+	"Size":               {},
+}
+
+// checkGoNames reports names that cannot be declared as they will be spelled
+// in go: a field under the name of one of the methods generated for its record,
+// and two fields, or two definitions, whose names differ only in the case of
+// their first letter (both are declared under the exposed, or unexposed,
+// spelling). Imported records (generated in their own package) are exempt.
+func (f File) checkGoNames(settings GenerateSettings) error {
+	definitions := map[string]string{}
+	define := func(kind, name, namespace string) error {
+		if namespace != "" {
+			return nil
+		}
+		goName := exposeName(name, settings)
+		if other, ok := definitions[goName]; ok {
+			return fmt.Errorf("%s %s and %s are both generated as %s", kind, name, other, goName)
+		}
+		definitions[goName] = name
+		return nil
+	}
+	checkFields := func(kind, record string, unexposed bool, fields []Field) error {
+		declared := map[string]string{}
+		for _, fd := range fields {
+			goName := exposeName(fd.Name, settings)
+			if unexposed {
+				goName = unexposeName(fd.Name)
+			} else if _, ok := generatedMethodNames[goName]; ok {
+				return fmt.Errorf("%s %s has a field named %s, which is the name of a generated method", kind, record, fd.Name)
+			}
+			if other, ok := declared[goName]; ok {
+				return fmt.Errorf("%s %s has fields %s and %s, which are both generated as %s", kind, record, other, fd.Name, goName)
+			}
+			declared[goName] = fd.Name
+		}
+		return nil
+	}
+	for _, en := range f.Enums {
+		if err := define("enum", en.Name, en.Namespace); err != nil {
+			return err
+		}
+	}
+	for _, con := range f.Consts {
+		if err := define("const", con.Name, ""); err != nil {
+			return err
+		}
+	}
+	for _, st := range f.Structs {
+		if st.Namespace != "" {
+			continue
+		}
+		if err := define("struct", st.Name, st.Namespace); err != nil {
+			return err
+		}
+		if err := checkFields("struct", st.Name, st.ReadOnly, st.Fields); err != nil {
+			return err
+		}
+	}
+	for _, msg := range f.Messages {
+		if msg.Namespace != "" {
+			continue
+		}
+		if err := define("message", msg.Name, msg.Namespace); err != nil {
+			return err
+		}
+		if err := checkFields("message", msg.Name, false, msg.sortedFields()); err != nil {
+			return err
+		}
+	}
+	for _, un := range f.Unions {
+		if un.Namespace != "" {
+			continue
+		}
+		if err := define("union", un.Name, un.Namespace); err != nil {
+			return err
+		}
+		for _, ufd := range un.sortedFields() {
+			if ufd.Struct != nil {
+				if err := define("union member", ufd.Struct.Name, ""); err != nil {
+					return err
+				}
+				if err := checkFields("union member", ufd.Struct.Name, ufd.Struct.ReadOnly, ufd.Struct.Fields); err != nil {
+					return err
+				}
+			}
+			if ufd.Message != nil {
+				if err := define("union member", ufd.Message.Name, ""); err != nil {
+					return err
+				}
+				if err := checkFields("union member", ufd.Message.Name, false, ufd.Message.sortedFields()); err != nil {
+					return err
+				}
+			}
+		}
+	}
+	return nil
+}
